@@ -406,7 +406,7 @@ CATALOGUE = [
          old="    return f'({PLWriter.LogicConnective.NOT} ({or_children})) ' \\",
          new="    return f'({parent} {PLWriter.LogicConnective.EQUIVALENCE} {PLWriter.LogicConnective.NOT} ({or_children})) ' \\"),
     dict(id="c10-pl-excludes-as-implies", props=["C10"], file=TR + "pl_writer.py", rule="C10-PL-CTC",
-         old="        f'{PLWriter.LogicConnective.IMPLIES.value} {PLWriter.LogicConnective.NOT.value}',", new="        f'{PLWriter.LogicConnective.IMPLIES.value}',"),
+         old="        ASTOperation.EXCLUDES: (f'{PLWriter.LogicConnective.IMPLIES.value} '\n                                f'{PLWriter.LogicConnective.NOT.value}'),", new="        ASTOperation.EXCLUDES: PLWriter.LogicConnective.IMPLIES.value,"),
     dict(id="c10-pl-skips-grandchildren", props=["C10"], file=TR + "pl_writer.py", rule="C10-PL-COVER",
          old="            features.extend(relation.children)", new="            features.extend(relation.children if feature is feature_model.root else [])"),
     dict(id="c10-pl-enum-no-str", props=["C10"], file=TR + "pl_writer.py", rule="C10-PL",
@@ -432,7 +432,7 @@ CATALOGUE = [
          old="        for name, v_type in attributes.items():", new="        for name, v_type in set(attributes.items()):"),
     # ---- C11 ------------------------------------------------------------------------------------
     dict(id="c11-xor-untranslated", props=["C11"], file=TR + "clafer_writer.py", rule="C11-OPS",
-         old="    ctc_str = re.sub(fr'\\b{ASTOperation.XOR.value}\\b', 'xor', ctc_str)\n", new=""),
+         old="                    ASTOperation.XOR: 'xor',\n", new=""),
     dict(id="c11-alt-as-or", props=["C11"], file=TR + "clafer_writer.py", rule="C11-GROUPS",
          old="        group_type = 'xor'", new="        group_type = 'or'"),
     dict(id="c11-mux-missing", props=["C11"], file=TR + "clafer_writer.py", rule="C11-GROUPS",
@@ -442,9 +442,9 @@ CATALOGUE = [
     dict(id="c11-card-minmax-swapped", props=["C11"], file=TR + "clafer_writer.py", rule="C11-GROUPS",
          old='            group_type = str(rel.card_min) + ".." + str(rel.card_max)', new='            group_type = str(rel.card_max) + ".." + str(rel.card_min)'),
     dict(id="c11-excludes-as-implies", props=["C11"], file=TR + "clafer_writer.py", rule="C11-OPS",
-         old="'=> not', ctc_str)", new="'=>', ctc_str)"),
+         old="ASTOperation.EXCLUDES: '=> not'}", new="ASTOperation.EXCLUDES: '=>'}"),
     dict(id="c11-and-as-or", props=["C11"], file=TR + "clafer_writer.py", rule="C11-OPS",
-         old="fr'\\b{ASTOperation.AND.value}\\b', '&&', ctc_str)", new="fr'\\b{ASTOperation.AND.value}\\b', '||', ctc_str)"),
+         old="ASTOperation.AND: '&&',", new="ASTOperation.AND: '||',"),
     dict(id="c11-attr-declared-raw", props=["C11"], file=TR + "clafer_writer.py", rule="C11-ONEENC",
          old="            result += f'\\t{safename(name)} -> {v_type}\\n'", new="            result += f'\\t{name} -> {v_type}\\n'"),
     dict(id="c11-int-before-bool", props=["C11"], file=TR + "clafer_writer.py", rule="C11-TYPES",
